@@ -678,9 +678,11 @@ class AsyncServer(base_server.BaseServer):
         namespace = namespace or '/'
         sid = self.manager.sid_from_eio_sid(eio_sid, namespace)
         self.logger.info('received ack from %s [%s]', sid, namespace)
-        if not self.manager.is_connected(sid, namespace):
+        if eio_sid in self._ending or \
+                not self.manager.is_connected(sid, namespace):
             # (like its events, the acknowledgements of a client that is
-            # being disconnected are not dispatched any more)
+            # being disconnected - or whose connection has ended - are not
+            # dispatched any more)
             return
         await self.manager.trigger_callback(sid, id, data)
 
